@@ -61,7 +61,10 @@ struct Data {
 
 fn draw_labels(rng: &mut Rng, k: usize) -> (Vec<f64>, &'static str) {
     for _ in 0..100 {
-        let kind = rng.below(7);
+        let kind = rng.below(9);
+        if kind >= 7 {
+            return scverif::gen::tricky_labels(rng, k);
+        }
         let (mut v, name): (Vec<f64>, &'static str) = match kind {
             0 => ((0..k).map(|j| j as f64).collect(), "0..k-1"),
             1 => ((0..k).map(|_| rng.int(-60, -1) as f64).collect(), "negative-integers"),
